@@ -17,6 +17,9 @@ import time
 ROOT = os.path.dirname(os.path.dirname(os.path.abspath(__file__)))
 LEAN = os.path.join(ROOT, "lean")
 EVIDENCE = os.path.join(ROOT, "evidence")
+if os.environ.get("JAQALPAQ_REPO") and os.path.realpath(os.environ["JAQALPAQ_REPO"]) != "/repo":
+    # a run against a scratch worktree (seed testing): its evidence is not evidence about /repo
+    EVIDENCE = os.path.join(ROOT, "replays", "scratch-evidence")
 REPLAYS = os.path.join(ROOT, "replays")
 CORPUS = os.path.join(ROOT, "corpus")
 DRIVER = os.path.join(LEAN, ".lake", "build", "bin", "jaqal-model")
